@@ -67,7 +67,7 @@ def parseEntry (s : String) : Except String Entry :=
   match s with
   | "dbExecute" => pure .dbExecute | "dbInsert" => pure .dbInsert | "saveCreated" => pure .saveCreated
   | "saveUpdated" => pure .saveUpdated | "saveDeleted" => pure .saveDeleted | "m2mRemove" => pure .m2mRemove
-  | "m2mAdd" => pure .m2mAdd | "bulkDelete" => pure .bulkDelete
+  | "m2mAdd" => pure .m2mAdd | "bulkDelete" => pure .bulkDelete | "rawConn" => pure .rawConn
   | _ => throw s!"bad entry {s}"
 
 def parseEntries (j : Json) : Except String (List (Entry × List RowWrite)) := do
@@ -91,7 +91,7 @@ def stmtName : Stmt → String
 
 def allEntries : List (String × Entry) :=
   [("dbExecute", .dbExecute), ("dbInsert", .dbInsert), ("saveCreated", .saveCreated), ("saveUpdated", .saveUpdated),
-   ("saveDeleted", .saveDeleted), ("m2mRemove", .m2mRemove), ("m2mAdd", .m2mAdd), ("bulkDelete", .bulkDelete)]
+   ("saveDeleted", .saveDeleted), ("m2mRemove", .m2mRemove), ("m2mAdd", .m2mAdd), ("bulkDelete", .bulkDelete), ("rawConn", .rawConn)]
 
 def handle (j : Json) : Except String Json := do
   let op ← argStr j "op"
